@@ -1,4 +1,6 @@
 """C11 - Base58, Base58Check and Bech32/Bech32m codecs are exact and detect corruption."""
+import contextlib
+import io
 import itertools
 
 from hypothesis import strategies as st
@@ -15,6 +17,12 @@ from pycoin.contrib import bech32m
 from pycoin.networks import parseable_str as ps
 
 from gen import subproc
+
+try:
+    import groestlcoin_hash  # noqa: F401
+    _GROESTL_PRESENT = True
+except ImportError:
+    _GROESTL_PRESENT = False
 
 PROPERTY = "C11"
 ASSUMPTIONS = ["oracles/refenc.py (Base58/Base58Check/Bech32/Bech32m written from the BIPs, calibrated on BIP173/BIP350 "
@@ -61,6 +69,22 @@ def o_b58_bytes(case):
         _bad("b58check:roundtrip", "hashed round trip of %s" % case["data"])
     if ps.parse_b58_double_sha256(h) != (data if len(data) + 4 else None):
         _bad("b58check:parseable_str", "parse_b58_double_sha256 disagrees on %r" % h)
+    # one shared text object (what ku and the network parsers pass around) decoded under the two checksum functions the
+    # library knows, in both orders: each decoder answers for its own checksum whatever the other one did before
+    from pycoin.coins.groestlcoin.parse import parse_b58_groestl
+    for order in ("other-first", "sha-first"):
+        shared = ps.parseable_str(h)
+        with contextlib.redirect_stdout(io.StringIO()):
+            if order == "other-first":
+                parse_b58_groestl(shared)
+            sha = ps.parse_b58_double_sha256(shared)
+            other = parse_b58_groestl(shared)
+        if sha != data:
+            _bad("b58check:shared-text:double-sha256-answer-depends-on-earlier-decoders", "parse_b58_double_sha256(%r) on a shared parseable_str = %r "
+                 "(%s), expected %s" % (h, sha, order, data.hex()))
+        if other is not None and not _GROESTL_PRESENT:
+            _bad("b58check:shared-text:other-checksum-accepted-without-checking", "parse_b58_groestl(%r) on a shared parseable_str = %r (%s) although "
+                 "the groestl checksum cannot even be computed here" % (h, other, order))
     nz = len(data) - len(data.lstrip(b"\0"))
     return ["lead0=%d" % min(nz, 3), "len=%s" % ("0" if not data else "1-2" if len(data) < 3 else "3+")]
 
